@@ -18,7 +18,7 @@ RULE = ('0-4 ledger processes; classes: plain (always-on, constant or invocation
         'intervals on the 10^-p grid); 1-7 run_for/update calls incl. chunks shorter than every timestep, '
         'forced and unforced, nonzero initial time; non-trivial = >=2 calls and (>=2 processes or a '
         'hostile/quiet/grid class) and >=5 clock assignments observed; distinct = distinct case spec')
-PLAN = {'quick': {'n': 12000, 'min_cases': 2000}, 'thorough': {'n': 400000, 'min_cases': 40000}}
+PLAN = {'quick': {'n': 30000, 'min_cases': 2000}, 'thorough': {'n': 400000, 'min_cases': 40000}}
 REQUIRED_ORACLES = ['monotone', 'bounded_by_end', 'landing', 'terminates', 'rows_increasing', 'on_grid',
                     'grid_event_times']
 ANCHORS = ['vivarium.core.engine:Engine.run_for', 'vivarium.core.engine:Engine.update',
